@@ -42,7 +42,7 @@ FIELD_POOL = ['Ok', 'Fail', 'Error', 'Yes', 'No', 'f0', 'A', 'b', 'Busy']
 FEATURES = ['deep_ns', 'global_enc', 'shared_itf', 'empty_itf', 'no_ports', 'inout_mix',
             'out_many_formals', 'nested_enum', 'outer_enum', 'injected', 'same_name_siblings',
             'multi_id_ns', 'reopened_ns', 'system_enc', 'partial_spelling', 'distractors',
-            'many_ports', 'subint_reply', 'bool_reply', 'mc_ready', 'ref_extern', 'prefix_ports', 'mirror_ns']
+            'many_ports', 'subint_reply', 'bool_reply', 'mc_ready', 'ref_extern', 'prefix_ports', 'mirror_ns', 'many_provides', 'prefix_ns']
 
 
 def _uniq(draw, pool, taken, n=1):
@@ -74,7 +74,15 @@ def shell_model(draw, force=None, max_ports=6, collide=False):  # pylint: disabl
                                         max_size=max(1, depth))))
         # a namespace must not be nested in an equally named one (keeps C++ lookups unambiguous)
         enc_scope = tuple(dict.fromkeys(enc_scope))
+    prefix_sibling = None
+    if 'prefix_ns' in feats and enc_scope:
+        # a sibling namespace whose name is a string prefix of the encapsulee's namespace name
+        # (Core / CoreUnit): only id-aligned prefixes enclose a scope
+        prefix_sibling = enc_scope[:-1] + (enc_scope[-1],)
+        enc_scope = enc_scope[:-1] + (enc_scope[-1] + 'Unit',)
     scopes = [enc_scope[:k] for k in range(len(enc_scope) + 1)]
+    if prefix_sibling:
+        scopes.append(prefix_sibling)
     if 'same_name_siblings' in feats or draw(st.booleans()):
         # sibling branches
         for _ in range(draw(st.integers(1, 2))):
@@ -145,6 +153,8 @@ def shell_model(draw, force=None, max_ports=6, collide=False):  # pylint: disabl
     interfaces = []
     for i in range(n_itf):
         sc = draw(st.sampled_from(scopes))
+        if prefix_sibling and i == 0:
+            sc = enc_scope  # the declaration that gets a namesake in the prefix-named sibling
         nm = _uniq(draw, pool_for(TYPE_POOL), names_in[sc])
         itf = {'k': 'interface', 'name': [nm], 'types': [], 'events': []}
         if ('nested_enum' in feats and i == 0) or 'mc_ready' in feats or \
@@ -156,6 +166,18 @@ def shell_model(draw, force=None, max_ports=6, collide=False):  # pylint: disabl
                 _uniq(draw, FIELD_POOL, taken) for _ in range(draw(st.integers(1, 3)))]})
         interfaces.append((sc, itf))
         decls.append((sc, itf))
+
+    if prefix_sibling:
+        # namesakes (never referenced) of everything declared in the encapsulee's namespace
+        for sc, e in list(decls):
+            if tuple(sc) == tuple(enc_scope) and e['k'] in ('interface', 'extern') and \
+                    e['name'][0] not in names_in[prefix_sibling]:
+                names_in[prefix_sibling].add(e['name'][0])
+                twin = {'k': 'interface', 'name': list(e['name']), 'types': [], 'events': [],
+                        'distractor': True} if e['k'] == 'interface' else \
+                    {'k': 'extern', 'name': list(e['name']), 'value': '::xt::Distractor',
+                     'distractor': True}
+                decls.append((prefix_sibling, twin))
 
     if mirror:
         for top in mirror[:2]:
@@ -279,7 +301,8 @@ def shell_model(draw, force=None, max_ports=6, collide=False):  # pylint: disabl
 
     # ---- ports of the encapsulee (types are looked up from the encapsulee's parent scope)
     if 'no_ports' not in feats:
-        n_ports = draw(st.integers(4, max_ports)) if 'many_ports' in feats else \
+        n_ports = draw(st.integers(4, max_ports)) if ('many_ports' in feats or
+                                                      'many_provides' in feats) else \
             draw(st.integers(1, min(4, max_ports)))
         p_taken = set()
         shared = None
@@ -291,8 +314,9 @@ def shell_model(draw, force=None, max_ports=6, collide=False):  # pylint: disabl
                 ref = shared
             if j == 0:
                 shared = ref
-            direction = 'provides' if j == 0 else draw(st.sampled_from(['provides', 'requires',
-                                                                       'requires']))
+            direction = 'provides' if j == 0 else draw(st.sampled_from(
+                ['provides', 'provides', 'provides', 'requires'] if 'many_provides' in feats else
+                ['provides', 'requires', 'requires']))
             nm = _uniq(draw, PREFIX_PORT_POOL if 'prefix_ports' in feats else PORT_POOL, p_taken)
             # port names that differ only in the case of the first letter collide in the
             # generated accessor names (listed finding): excluded by construction
